@@ -49,6 +49,7 @@ type popCtx struct {
 	sel     string // "" = populate everything; else the only leaf path to populate
 	count   int    // number of elements of the container selected by sel = <path>.len
 	counted bool   // count is meaningful (container-length instance); otherwise one element
+	nested  bool   // counted container of containers: every outer element gets two distinct inner elements
 	// interface-typed sites are given a (zero-valued) concrete value even off the selected path:
 	// set for the elements of a counted container, which must be encodable
 	forceIface bool
@@ -179,6 +180,9 @@ func (c *popCtx) fill(v reflect.Value, path, gpath string, depth int) {
 				varyKey(k, i)
 				e := reflect.New(t.Elem()).Elem()
 				(&popCtx{t: c.t, variant: c.variant, sel: "\x00none", forceIface: true}).fill(e, path+"[]", gpath+"[*]", depth+1)
+				if c.nested {
+					c.fillInner(e, i, depth)
+				}
 				v.SetMapIndex(k, e)
 			}
 			return
@@ -207,6 +211,44 @@ func (c *popCtx) fill(v reflect.Value, path, gpath string, depth int) {
 		e := reflect.New(t.Elem()).Elem()
 		c.fill(e, path+"[0]", gpath+"[*]", depth+1)
 		v.Set(reflect.Append(reflect.MakeSlice(t, 0, 1), e))
+	}
+}
+
+// fillInner gives the inner container e (a map or slice that is the element of a counted
+// container) two elements that differ from each other and from those of the other outer
+// elements (outer index i).
+func (c *popCtx) fillInner(e reflect.Value, i, depth int) {
+	t := e.Type()
+	mk := func(j int) reflect.Value {
+		x := reflect.New(t.Elem()).Elem()
+		(&popCtx{t: c.t, variant: c.variant, sel: "\x00none", forceIface: true}).fill(x, "", "", depth+2)
+		return x
+	}
+	switch t.Kind() {
+	case reflect.Map:
+		e.Set(reflect.MakeMap(t))
+		for j := 0; j < 2; j++ {
+			k := reflect.New(t.Key()).Elem()
+			(&popCtx{t: c.t, variant: c.variant}).fill(k, "", "", depth+2)
+			varyKey(k, 1+2*i+j)
+			x := mk(j)
+			if isScalar(x.Type()) {
+				sampleScalar(x)
+				varyKey(x, 1+2*i+j)
+			}
+			e.SetMapIndex(k, x)
+		}
+	case reflect.Slice:
+		sl := reflect.MakeSlice(t, 0, 2)
+		for j := 0; j < 2; j++ {
+			x := mk(j)
+			if isScalar(x.Type()) {
+				sampleScalar(x)
+				varyKey(x, 1+2*i+j)
+			}
+			sl = reflect.Append(sl, x)
+		}
+		e.Set(sl)
 	}
 }
 
@@ -249,6 +291,14 @@ func varyKey(k reflect.Value, i int) bool {
 		return false
 	}
 	return true
+}
+
+// buildNested builds the instance in which only the container at path holds two elements, each
+// of them an inner container with two elements of its own (all distinct).
+func (t *target) buildNested(variant map[reflect.Type]reflect.Type, path string) reflect.Value {
+	p := reflect.New(t.typ)
+	(&popCtx{t: t, variant: variant, sel: path + ".len", count: 2, counted: true, nested: true}).fill(p.Elem(), "", "", 0)
+	return p
 }
 
 // buildCount builds the instance in which only the container at path holds n elements.
@@ -428,15 +478,23 @@ func (t *target) walk() walkResult {
 			for _, n := range containerSizes {
 				sjobs = append(sjobs, sizeJob{variant, p, n})
 			}
+			if t.nestedContainer(variant, p) {
+				sjobs = append(sjobs, sizeJob{variant, p, -2}) // 2 outer x 2 inner elements
+			}
 		}
 	}
 	fails := make([]*sizeFailure, len(sjobs))
 	par.Go(len(sjobs), func(i int) {
 		j := sjobs[i]
-		in := t.buildCount(j.variant, j.path, j.n)
+		var in reflect.Value
+		if j.n == -2 {
+			in = t.buildNested(j.variant, j.path)
+		} else {
+			in = t.buildCount(j.variant, j.path, j.n)
+		}
 		g := dposkit.Generic(j.path)
 		before := linesOf(in)
-		if got := lenLine(before, j.path); got != j.n {
+		if got := lenLine(before, j.path); j.n >= 0 && got != j.n {
 			// keys of this container cannot be made distinct by the walker (engine limit)
 			if j.n > 1 {
 				return
@@ -512,6 +570,18 @@ func fieldGroup(g string) string {
 
 // containerSizes is the length menu of the container family (set by main per tier).
 var containerSizes = []int{0, 1, 2, 10001}
+
+// nestedContainer: is the element of the container at path itself a map or a slice (not bytes)?
+// Decided on the all-populated instance: a ".len" line directly below an element.
+func (t *target) nestedContainer(variant map[reflect.Type]reflect.Type, path string) bool {
+	for _, l := range linesOf(t.build(variant, "")) {
+		p := pathOfLine(l)
+		if strings.HasPrefix(p, path+"[") && strings.HasSuffix(p, "].len") && strings.Count(p[len(path):], "[") == 1 {
+			return true
+		}
+	}
+	return false
+}
 
 func lenLine(lines []string, path string) int {
 	want := path + ".len = "
